@@ -48,6 +48,29 @@ def standin(tier, seed):
         yield "exchange * 2", Atoms("Cu"), [("xx", lambda: ExchangeMove(L.copy()) * 2), ("d", lambda: DisplacementMove(L.copy(), Ball(0.2)))], None, "gc:inserted_particles_share_a_label"
         yield "molecular composite a + b", Atoms("CO", positions=[[0, 0, 0], [0, 0, 1.1]]), [("xx", lambda: ExchangeMove(L.copy(), TranslationRotation()) + ExchangeMove(L.copy(), TranslationRotation())), ("d", lambda: DisplacementMove(L.copy(), Ball(0.2)))], None, "gc:inserted_particles_share_a_label"
 
+    # the same displacement move registered on its own and inside a registered composite
+    def shared_leaf():
+        a = bulk("Cu", cubic=True)
+        a.rattle(0.05, seed=4)
+        a.calc = pair_calculator()
+        sim = GrandCanonical(a, Atoms("Cu"), temperature=4000.0, chemical_potential=0.5, number_of_exchange_particles=4, seed=seed + 5, max_cycles=1)
+        L = np.arange(4)
+        d = DisplacementMove(L.copy(), Ball(0.2))
+        sim.add_move(ExchangeMove(L.copy(), bias_towards_insert=1.0), GrandCanonicalCriteria(), name="x")
+        sim.add_move(d, Never(), name="d")
+        sim.add_move(d + DisplacementMove(L.copy(), Ball(0.1)), Never(), name="dd")
+        case = {"config": "a displacement move under its own name and inside a registered composite", "seed": seed}
+        V.case(case)
+        try:
+            for st in range(steps):
+                sim.run(1)
+                if len(d.labels) != len(a):
+                    V.add("gc:leaf_shared_between_registrations_notified_twice", dict(case, step=st), f"labels of the shared move have length {len(d.labels)} for {len(a)} atoms")
+                    return
+        except Exception as e:  # noqa: BLE001
+            V.add("gc:leaf_shared_between_registrations_notified_twice", case, repr(e))
+    shared_leaf()
+
     for name, template, table, default_label, known_tag in configs():
         a = bulk("Cu", cubic=True)
         a.rattle(0.05, seed=4)
